@@ -5,8 +5,8 @@ Code mirrored (dclab/rtdc_dataset/fmt_hierarchy):
 * `mapper.py`   the four index maps `map_indices_child2parent / parent2child / child2root /
                 root2child` (`c2p`, `p2c`, `c2root`, `r2c`);
 * `hfilter.py`  `HierarchyFilter.parent_changed` (`key`), `retrieve_manual_indices`
-                (`retrieve`, three branches), `apply_manual_indices` + re-creation of the filter
-                (`recreate`), `update_parent`;
+                (`retrieveSnap`; `retrieveOld` = the three branches before the F32 repair),
+                `apply_manual_indices` + re-creation of the filter (`recreate`), `update_parent`;
 * `base.py`     `RTDC_Hierarchy.apply_filter` **in its actual order** (`applyFilter`/`refresh`):
                 retrieve manual indices, recurse into the parent, clear caches and `_length`,
                 `_check_parent_filter`, `Filter.update`;
@@ -24,6 +24,12 @@ A hierarchy is a chain, stored **youngest first**: `[L_d, …, L_1, L_0]`, `L_0`
 `false` = the code before F04 (hash of the parent's boolean `filter.all` only),
 `true`  = the repaired code (hashes of the `filter.all` arrays of the parent and all its
 ancestors, i.e. pattern *and* identity of the parent's events).
+
+`snap : Bool` selects `retrieve_manual_indices`:
+`false` = the code before F32 (maps `manual` through the *current* filter arrays of all
+          ancestors; skipped when the parent changed),
+`true`  = the repaired code (uses `_root_ids`, the root indices of the filter's own events
+          remembered when the filter was created; independent of the state of the parents).
 -/
 namespace DclabModel.Hier
 
@@ -109,11 +115,12 @@ structure Level where
   len : Nat
   /-- cached identity feature (`ChildScalar._array`): root index of every event -/
   ev : List Nat
+  /-- `HierarchyFilter._root_ids` (F32 repair): root indices of the events `manual` refers to,
+  determined when the filter object was created -/
+  rootIds : List Nat
   /-- GHOST (never read by the functions below): root ids excluded by the user at this level
   and not re-included since -/
   gM : List Nat
-  /-- GHOST: root ids ever excluded by the user at this level -/
-  gEver : List Nat
 deriving DecidableEq, Repr
 
 /-! ## Filter.update (ranges + manual) -/
@@ -148,8 +155,8 @@ def normSet (xs : List Nat) : List Nat := xs.foldr insSorted []
 def key (fixed : Bool) (anc : List Level) : List (List Bool) :=
   if fixed then anc.map (·.all) else (anc.take 1).map (·.all)
 
-/-- `HierarchyFilter.retrieve_manual_indices` -/
-def retrieve (fixed : Bool) (c : Level) (anc : List Level) : Level :=
+/-- `HierarchyFilter.retrieve_manual_indices` before the F32 repair -/
+def retrieveOld (fixed : Bool) (c : Level) (anc : List Level) : Level :=
   if key fixed anc != c.phash then c            -- parent changed (or no filter yet): ignore
   else if c.manual.all id then c                 -- nothing excluded: remember hidden ones
   else
@@ -162,6 +169,17 @@ def retrieve (fixed : Bool) (c : Level) (anc : List Level) : Level :=
     let phid := pall.filter (fun r => !pvisP.contains r)
     { c with manRoot := normSet (pbool ++ phid) }
 
+/-- `HierarchyFilter.retrieve_manual_indices` (F32 repair): `pbool = _root_ids[~manual]`,
+hidden = remembered ids that are not among the filter's events, result `sorted(pbool ∪ hidden)` -/
+def retrieveSnap (c : Level) : Level :=
+  let pbool := sel (c.manual.map not) c.rootIds
+  let phid := c.manRoot.filter (fun r => !c.rootIds.contains r)
+  { c with manRoot := normSet (pbool ++ phid) }
+
+def retrieve (fixed snap : Bool) (c : Level) (anc : List Level) : Level :=
+  -- (a member without filter object has empty `manual`, `_root_ids`: `retrieveSnap` is the identity)
+  if snap then retrieveSnap c else retrieveOld fixed c anc
+
 /-- `_check_parent_filter` when the parent changed: new `HierarchyFilter` (all caches empty,
 `manual` all true, `update_parent`) followed by `apply_manual_indices(_man_root_ids)` -/
 def recreate (fixed : Bool) (c : Level) (anc : List Level) : Level :=
@@ -171,7 +189,8 @@ def recreate (fixed : Bool) (c : Level) (anc : List Level) : Level :=
     old := c.cfg.map (fun _ => none)
     manual := (List.range c.len).map (fun p => !cidx.contains p)
     all := List.replicate c.len true
-    phash := key fixed anc }
+    phash := key fixed anc
+    rootIds := c2root (anc.map (·.all)) (List.range c.len) }
 
 /-! ## base.py -/
 
@@ -191,22 +210,22 @@ def refresh (fixed : Bool) (D : Data) (c : Level) (ps : List Level) : Level :=
   filterUpdate D c3
 
 /-- `apply_filter` / `rejuvenate` of the head of the chain -/
-def applyFilter (fixed : Bool) (D : Data) : List Level → List Level
+def applyFilter (fixed snap : Bool) (D : Data) : List Level → List Level
   | [] => []
   | [r] => [filterUpdate D r]
   | c :: p :: rest =>
-    let ps := applyFilter fixed D (p :: rest)
-    refresh fixed D (retrieve fixed c (p :: rest)) ps :: ps
+    let ps := applyFilter fixed snap D (p :: rest)
+    refresh fixed D (retrieve fixed snap c (p :: rest)) ps :: ps
 
 /-- rejuvenate the member at position `k` (0 = youngest); members below are left alone -/
-def rejuvAt (fixed : Bool) (D : Data) (k : Nat) (s : List Level) : List Level :=
-  s.take k ++ applyFilter fixed D (s.drop k)
+def rejuvAt (fixed snap : Bool) (D : Data) (k : Nat) (s : List Level) : List Level :=
+  s.take k ++ applyFilter fixed snap D (s.drop k)
 
 /-! ## construction -/
 
 def freshLevel (nf : Nat) : Level :=
   { cfg := List.replicate nf none, old := List.replicate nf none, box := [], manual := [],
-    all := [], manRoot := [], phash := [], len := 0, ev := [], gM := [], gEver := [] }
+    all := [], manRoot := [], phash := [], len := 0, ev := [], rootIds := [], gM := [] }
 
 def rootLevel (D : Data) : Level :=
   { freshLevel D.feats.length with
@@ -217,12 +236,12 @@ def rootLevel (D : Data) : Level :=
     ev := List.range D.n }
 
 /-- `RTDC_Hierarchy(parent)`: the constructor calls `apply_filter` -/
-def addChild (fixed : Bool) (D : Data) (s : List Level) : List Level :=
-  applyFilter fixed D (freshLevel D.feats.length :: s)
+def addChild (fixed snap : Bool) (D : Data) (s : List Level) : List Level :=
+  applyFilter fixed snap D (freshLevel D.feats.length :: s)
 
-def initChain (fixed : Bool) (D : Data) : Nat → List Level
+def initChain (fixed snap : Bool) (D : Data) : Nat → List Level
   | 0 => [rootLevel D]
-  | d + 1 => addChild fixed D (initChain fixed D d)
+  | d + 1 => addChild fixed snap D (initChain fixed snap D d)
 
 /-! ## histories -/
 
@@ -239,8 +258,7 @@ def manualEdit (p : Nat) (b : Bool) (c : Level) : Level :=
   | some r =>
     if p < c.manual.length then
       { c with manual := c.manual.set p b
-               gM := if b then c.gM.filter (· != r) else r :: c.gM
-               gEver := if b then c.gEver else r :: c.gEver }
+               gM := if b then c.gM.filter (· != r) else r :: c.gM }
     else c
 
 inductive Op where
@@ -250,15 +268,19 @@ inductive Op where
   | manual (k p : Nat) (b : Bool)
   /-- `youngest.rejuvenate()` -/
   | rejuv
+  /-- `L.rejuvenate()` of the member at position `k` (also what `set_temporary_feature(L, …)`
+  does): only that member and its ancestors are refreshed -/
+  | rejuvAt (k : Nat)
 deriving DecidableEq, Repr
 
-def step (fixed : Bool) (D : Data) (s : List Level) : Op → List Level
+def step (fixed snap : Bool) (D : Data) (s : List Level) : Op → List Level
   | .setRange k f lo hi => modAt k (fun c => { c with cfg := c.cfg.set f (some (lo, hi)) }) s
   | .manual k p b => modAt k (manualEdit p b) s
-  | .rejuv => applyFilter fixed D s
+  | .rejuv => applyFilter fixed snap D s
+  | .rejuvAt k => rejuvAt fixed snap D k s
 
-def run (fixed : Bool) (D : Data) (s : List Level) (h : List Op) : List Level :=
-  h.foldl (step fixed D) s
+def run (fixed snap : Bool) (D : Data) (s : List Level) (h : List Op) : List Level :=
+  h.foldl (step fixed snap D) s
 
 /-! ## spec layer -/
 
